@@ -245,12 +245,94 @@ def strategy_fits_empty(strategy, cluster):
 RUNTIMES_DEFAULT = [1, 1, 2, 2, 3, 3, 4, 5, 6, 7, 8, 9]
 
 
+def gen_clockwork_world(seed, index, **over):
+    """Model-serving worlds for the Clockwork policy: shared models with loading
+    strategies and several batch-size strategies, bursty request arrivals."""
+    rng = random.Random(seed_int("world", seed, index, "clockwork"))
+    cluster = []
+    for p in range(rng.randint(1, 2)):
+        workers = []
+        for w in range(rng.randint(1, 2)):
+            workers.append({"name": f"W_{p}_{w}", "resources": [
+                {"name": "GPU", "quantity": rng.randint(1, 2)},
+                {"name": "RAM", "quantity": rng.randint(3, 8)}]})
+        cluster.append({"name": f"Pool_{p}", "workers": workers})
+    nmodels = rng.randint(1, 3)
+    profiles = []
+    for m in range(nmodels):
+        sizes = rng.choice([[1], [1, 2], [1, 2, 4], [2, 4], [1, 4]])
+        base = rng.randint(1, 4)
+        ex = []
+        for b in sizes:
+            ex.append({"batch_size": b, "runtime": base + {1: 0, 2: rng.randint(1, 2), 4: rng.randint(2, 4)}[b],
+                       "resource_requirements": {"GPU:any": 1}})
+        profiles.append({"name": f"M{m}",
+                         "loading_strategies": [{"batch_size": 1, "runtime": rng.randint(0, 3),
+                                                 "resource_requirements": {"RAM:any": rng.randint(1, 3)}}],
+                         "execution_strategies": ex})
+    graphs = []
+    for g in range(rng.randint(1, 3)):
+        model = rng.choice(profiles)["name"]
+        if rng.random() < 0.25:
+            nodes = [_node("n1", ["n2"], work_profile=model), _node("n2", work_profile=rng.choice(profiles)["name"])]
+            shape = "chain"
+        else:
+            nodes = [_node("n1", work_profile=model)]
+            shape = "single"
+        pol = rng.choice(["fixed", "fixed", "poisson", "closed_loop"])
+        gd = {"name": f"G{g}", "graph": nodes, "release_policy": pol, "shape": shape, "blocks": []}
+        inv = rng.randint(2, over.get("max_invocations", 8))
+        if rng.random() < 0.4:
+            gd["start"] = rng.randint(0, 4)
+        if pol == "fixed":
+            gd["period"] = rng.choice([0, 0, 1, 1, 2, 4])
+            gd["invocations"] = inv
+        elif pol == "poisson":
+            gd["rate"] = rng.choice([0.5, 1.0, 2.0])
+            gd["invocations"] = inv
+        else:
+            gd["concurrency"] = rng.randint(1, 4)
+            gd["invocations"] = inv
+        gd["deadline_variance"] = list(rng.choice([(0, 0), (50, 100), (100, 300), (200, 600), (500, 500)]))
+        graphs.append(gd)
+    workload = {"graphs": [{k: v for k, v in g.items() if k not in ("shape", "blocks")} for g in graphs],
+                "profiles": profiles}
+    flags = {
+        "scheduler": "Clockwork", "scheduler_runtime": 0, "random_seed": rng.randint(0, 2 ** 31),
+        "scheduler_frequency": rng.choice([-1, -1, 1, 3]), "scheduler_delay": rng.choice([0, 0, 1]),
+        "scheduler_run_at_worker_free": False, "runtime_variance": 0,
+        "resolve_conditionals_at_submission": False, "drop_skipped_tasks": rng.random() < 0.2,
+        "enforce_deadlines": True, "workload_update_interval": -1, "log_level": "warning",
+        "clockwork_goal": rng.choice(["clockwork", "least_slack"]),
+        "unique_work_profiles": True,
+    }
+    preload = rng.random() < over.get("p_preload", 0.5)
+    flags["scheduler_run_load"] = not preload
+    for k, v in over.get("flags", {}).items():
+        flags[k] = v
+    total = sum(g["invocations"] * 20 for g in graphs) + 50
+    flags["loop_timeout"] = over.get("loop_timeout", 20 * total)
+    world = {"seed": seed, "index": index, "profile": "clockwork", "cluster": cluster, "workload": workload,
+             "flags": flags, "fmt": rng.choice(["yaml", "json"]),
+             "meta": {"feasible_intent": True, "shapes": [g["shape"] for g in graphs],
+                      "blocks": {g["name"]: [] for g in graphs}, "zero_runtime": False,
+                      "preload": preload, "all_fit": True, "every_strategy_fits": True}}
+    world["hash"] = case_hash([cluster, workload, flags])
+    return world
+
+
 def gen_world(seed, index, profile="greedy", **over):
     """profile: greedy | planner | clockwork | any.  `over` overrides drawn choices."""
+    if profile == "clockwork":
+        return gen_clockwork_world(seed, index, **over)
     rng = random.Random(seed_int("world", seed, index, profile))
     zero_rt = over.get("zero_runtime", False)
     runtimes = list(RUNTIMES_DEFAULT) + ([0, 0, 0] if zero_rt else [])
     small = profile == "planner"
+    if small:
+        over = dict({"max_invocations": 2, "max_nodes": 4, "max_graphs": 2,
+                     "deadline_variances": [(0, 0), (0, 50), (10, 100), (50, 200)]}, **over)
+        runtimes = [1, 1, 2, 2, 3, 3, 4, 5] + ([0, 0] if zero_rt else [])
     cluster = gen_cluster(
         rng,
         max_pools=over.get("max_pools", 2 if small else 3),
@@ -366,9 +448,17 @@ def gen_flags(rng, profile, over):
         f["ilp_goal"] = "max_goodput"
         if sched != "TetriSched_CPLEX":
             f["release_taskgraphs"] = rng.random() < 0.4
-        if sched != "ILP":
+        if sched == "ILP":
+            # max_goodput is only accepted together with deadline enforcement
+            if rng.random() < 0.3:
+                f["ilp_goal"] = "max_slack"
+            else:
+                f["enforce_deadlines"] = True
+        else:
             f["scheduler_time_discretization"] = rng.choice([1, 1, 2, 3])
-            f["scheduler_plan_ahead"] = rng.choice([-1, -1, 10, 30])
+            # an unbounded plan-ahead makes the space-time matrix as long as the largest
+            # absolute deadline, which quickly exceeds the size-limited solver licences
+            f["scheduler_plan_ahead"] = rng.choice([-1, 8, 12, 12, 20])
     for k in ("scheduler_frequency", "scheduler_delay", "runtime_variance", "enforce_deadlines",
               "drop_skipped_tasks", "scheduler_run_at_worker_free", "resolve_conditionals_at_submission",
               "release_taskgraphs", "retract_schedules", "scheduler_lookahead", "ilp_goal",
